@@ -844,7 +844,7 @@ Definition chain_cmd (st : dstate) (cmd : tok) (args : list tok) : option (dstat
     | _ => Some (st, bad)
     end
   else if tok_is cmd "EXPORTIMPORT" then
-    match export_import_json (bech_of st) (unbech_of st) (d_chain st) with
+    match export_import_app (bech_of st) (unbech_of st) (d_now st) (d_chain st) with
     | Ok c' => Some (upd_versions (upd_chain st c') [c'] (d_base st + N.of_nat (length (d_versions st))), [b "X ok"])
     | Err _ _ => Some (st, [b "X invalid"])
     | Panic => Some (st, [b "X panic"])
